@@ -182,3 +182,48 @@ def assigned_names(stmts):
     for s in stmts:
         walk(s)
     return out
+
+
+class Roles:
+    """locals of a function under contract identified by ROLE (what they are assigned from / iterate over / are
+    compared with), read from the source on every run - so that invariants speak about 'the read position' or 'the
+    event being handled' and survive a renaming of incidental temporaries"""
+    def __init__(self, f):
+        self.node, _ms = node_of(f)
+        self.fname = qualname(f)
+
+    def _fail(self, what):
+        from pyvc.engine import Unsupported
+        raise Unsupported('%s: cannot identify %s' % (self.fname, what))
+
+    def _walk(self):
+        out = []
+
+        def walk(n):
+            for c in ast.iter_child_nodes(n):
+                if isinstance(c, (ast.FunctionDef, ast.Lambda, ast.ClassDef)):
+                    continue
+                out.append(c)
+                walk(c)
+        walk(self.node)
+        out.sort(key=lambda y: (getattr(y, 'lineno', 0), getattr(y, 'col_offset', 0)))
+        return out
+
+    def for_target(self, sub, k=0):
+        ls = [n for n in self._walk() if isinstance(n, ast.For) and isinstance(n.target, ast.Name) and sub in ast.unparse(n.iter)]
+        if len(ls) <= k:
+            self._fail('the loop variable over %s' % sub)
+        return ls[k].target.id
+
+    def assigned_from(self, sub, k=0):
+        ls = [n for n in self._walk() if isinstance(n, ast.Assign) and len(n.targets) == 1 and isinstance(n.targets[0], ast.Name)
+              and sub in ast.unparse(n.value)]
+        if len(ls) <= k:
+            self._fail('the variable assigned from %s' % sub)
+        return ls[k].targets[0].id
+
+    def while_test_names(self, k=0):
+        ls = [n for n in self._walk() if isinstance(n, ast.While)]
+        if len(ls) <= k:
+            self._fail('while loop #%d' % k)
+        return [x.id for x in ast.walk(ls[k].test) if isinstance(x, ast.Name)]
